@@ -806,6 +806,7 @@ const (
 	optStats   = 4
 	optSmall   = 8  // MaxReceiveMessageSize / MaxSendMessageSize = 64
 	optPlain   = 16 // an extra, non-streaming codec registered as application/x-plain
+	optLim1K   = 32 // MaxReceiveMessageSize = 1024
 )
 
 type statsRec struct{ b *beh }
@@ -854,6 +855,9 @@ func muxOptions(opts int, b *beh) []larking.MuxOption {
 	}
 	if opts&optSmall != 0 {
 		out = append(out, larking.MaxReceiveMessageSizeOption(64), larking.MaxSendMessageSizeOption(64))
+	}
+	if opts&optLim1K != 0 {
+		out = append(out, larking.MaxReceiveMessageSizeOption(1024))
 	}
 	if opts&optPlain != 0 {
 		out = append(out, larking.CodecOption("application/x-plain", plainOnly{}))
